@@ -190,6 +190,13 @@ def rmask (P : TagSet) (r : Row) : Row := mask P r
 /-- value a callable returns on a row -/
 def capp (cl : Callable) (r : Row) : Int := cl.fn r
 
+/-! ## Sort-term windows (the Sort arm of the iteration engine) -/
+
+/-- terms from index `a` on -/
+def tsuffix (ts : Terms) (a : Int) : Terms := ts.drop a.toNat
+/-- terms `[a, b)` -/
+def tslice (ts : Terms) (a b : Int) : Terms := (ts.take b.toNat).drop a.toNat
+
 /-! ## Formula abbreviations of laws.py (`wf`, `win_equiv`, `noshadow`) -/
 
 /-- well-formed slice bounds -/
